@@ -73,7 +73,7 @@ func relScript(r *rand.Rand, files [][][]int, pause func(i, n int) int) []Step {
 	return s
 }
 
-func genScenario(r *rand.Rand, t int, class string) *Scenario {
+func genScenario(r *rand.Rand, t int, class string, occ int) *Scenario {
 	sc := &Scenario{T: t, Src: "seeded:" + class, Mode: "files", Workers: 1 + r.Intn(4), Readers: 1 + r.Intn(3),
 		Batch: 1 + r.Intn(3), Buf: 1 + r.Intn(3), SSleep: map[string]int{}, RSleep: map[string]int{}, Status: r.Intn(2) == 0}
 	nkeys := 1 + r.Intn(4)
@@ -140,11 +140,76 @@ func genScenario(r *rand.Rand, t int, class string) *Scenario {
 		}
 		sc.Script = append(sc.Script, Step{K: "renter"}, Step{K: "rel", F: last + 1}, Step{K: "rexit"})
 		sc.RSleep["*"] = 30 + r.Intn(40)
+	case "lastinrender":
+		// the last match batch(es) are delivered while the k-th periodic render is in progress (a render
+		// at least two ticks long) and the input ends right after them: they are sampled after a render
+		// that started before they arrived, so only the final render can show them
+		k := 1 + occ%3 // which periodic render
+		inRender := 1  // batches arriving during it
+		if occ%3 == 2 {
+			inRender = 2
+		}
+		nf := 1 + r.Intn(2)
+		if r.Intn(3) == 0 {
+			sc.Mode, nf = "reader", 1
+		}
+		sc.Files = make([][][]int, nf)
+		mkBatch := func(n int) []int {
+			bt := make([]int, n)
+			for j := range bt {
+				if j == 0 || r.Intn(4) != 0 {
+					bt[j] = 1 + r.Intn(nkeys)
+				}
+			}
+			return bt
+		}
+		last := nf - 1
+		for g := 1; g <= k; g++ { // input that precedes render g (so that every tick has an update to show)
+			nm := 0
+			for f := 0; f < nf; f++ {
+				if f != last && g > 1 { // the other file is complete (one batch) before the first render
+					continue
+				}
+				if f != last {
+					n := sc.Batch
+					if r.Intn(2) == 0 {
+						n = 1 + r.Intn(sc.Batch)
+					}
+					sc.Files[f] = append(sc.Files[f], mkBatch(n))
+				} else {
+					sc.Files[f] = append(sc.Files[f], mkBatch(sc.Batch))
+				}
+				nm += countMatches(sc.Files[f][len(sc.Files[f])-1])
+				sc.Script = append(sc.Script, Step{K: "rel", F: f + 1})
+			}
+			for i := 0; i < nm; i++ {
+				sc.Script = append(sc.Script, Step{K: "senter"}, Step{K: "sexit"})
+			}
+			sc.Script = append(sc.Script, Step{K: "renter"})
+			if g < k {
+				sc.Script = append(sc.Script, Step{K: "rexit"})
+			}
+		}
+		nm := 0
+		for b := 0; b < inRender; b++ {
+			n := sc.Batch
+			if b == inRender-1 && r.Intn(2) == 0 {
+				n = 1 + r.Intn(sc.Batch)
+			}
+			sc.Files[last] = append(sc.Files[last], mkBatch(n))
+			nm += countMatches(sc.Files[last][len(sc.Files[last])-1])
+			sc.Script = append(sc.Script, Step{K: "rel", F: last + 1})
+		}
+		sc.Script = append(sc.Script, Step{K: "rexit"})
+		for i := 0; i < nm; i++ {
+			sc.Script = append(sc.Script, Step{K: "senter"}, Step{K: "sexit"})
+		}
+		sc.RSleep["*"] = 200 + r.Intn(80)
 	}
 	return sc
 }
 
-var classes = []string{"slowreader", "longsample", "slowrender", "lastbatch", "burst", "pipe", "eofinrender"}
+var classes = []string{"lastinrender", "slowreader", "longsample", "slowrender", "lastbatch", "burst", "pipe", "eofinrender"}
 
 func cmdGen(args []string) error {
 	fs := flag.NewFlagSet("gen", flag.ExitOnError)
@@ -159,7 +224,7 @@ func cmdGen(args []string) error {
 	}
 	defer w.Close()
 	for i := 0; i < *n; i++ {
-		w.Write(genScenario(r, *base+i, classes[i%len(classes)]))
+		w.Write(genScenario(r, *base+i, classes[i%len(classes)], i/len(classes)))
 	}
 	return nil
 }
